@@ -73,6 +73,7 @@ def plan(tier, seed):
     for i in range(nrand):
         jobs.append({"k": "rand", "i": i, "seed": seed})
     jobs.append({"k": "nested", "seed": seed})
+    jobs.append({"k": "huge", "seed": seed})
     return jobs
 
 
@@ -139,6 +140,16 @@ def run_job(job, ctx):
                 if len(blocks) >= 2500:
                     flush()
         flush()
+    elif job["k"] == "huge":
+        # one block of 70,000 lines whose only disorder sits beyond line 65,536, behind 100 ordinary blocks; and its in-order twin
+        lines = ["k%06d" % i for i in range(70000)]
+        bad = list(lines)
+        bad[69990], bad[69991] = bad[69991], bad[69990]
+        blocks = [vbatch.BBlock([("keep-sorted", "asc")], ["a", "b"]) for _ in range(100)]
+        blocks += [vbatch.BBlock([("keep-sorted", "asc")], bad), vbatch.BBlock([("keep-sorted", "asc")], lines),
+                   vbatch.BBlock([("keep-sorted", "desc")], list(reversed(bad)))]
+        for c in vbatch.run_batch(ctx, blocks, "hash", "keep-sorted", model, sig_prefix="C06", prefix="huge", nontrivial_fn=_nontrivial, sets_fn=_sets):
+            acc.add(c)
     elif job["k"] == "nested":
         # nested blocks: the inner blocks' tag lines are ordinary lines (keys) of the outer block, and each inner block is
         # judged on its own content
